@@ -1476,29 +1476,18 @@ class CircuitTemplate(AbstractBaseTemplate):
         if depth > self._depth:
             raise ValueError('Input depth does not match the hierarchical depth of the circuit.')
 
-        path = []
-        input_circuits = {}
-        inp_circuit = input_circuits
-        net = self
-        for i in range(depth):
-            circuit_key = f"input_lvl_{i}"
-            if circuit_key not in net.circuits:
-                c = CircuitTemplate(name=circuit_key, path='none')
-                net = net.update_template(circuits={circuit_key: c})
-                inp_circuit[circuit_key] = {}
-            else:
-                inp_circuit[circuit_key] = net.circuits[circuit_key]
-            net = net.circuits[circuit_key]
-            if i < depth - 1:
-                inp_circuit = inp_circuit[circuit_key]
-            else:
-                net = net.update_template(nodes={node_key: node})
-                inp_circuit[circuit_key] = net
-            path.append(circuit_key)
-        else:
-            net = net.update_template(nodes={node_key: node})
-        if depth > 0:
-            net = self.update_template(circuits=input_circuits)
+        # the input node lives in a chain of circuits `input_lvl_0/.../input_lvl_{depth-1}` that mirrors the depth of the
+        # hierarchy; every level is a CircuitTemplate (existing levels are extended, missing ones are created)
+        path = [f"input_lvl_{i}" for i in range(depth)]
+
+        def _extend(circuit: CircuitTemplate, level: int) -> CircuitTemplate:
+            if level == depth:
+                return circuit.update_template(nodes={node_key: node})
+            key = path[level]
+            sub = circuit.circuits[key] if key in circuit.circuits else CircuitTemplate(name=key, path='none')
+            return circuit.update_template(circuits={key: _extend(sub, level + 1)})
+
+        net = _extend(self, 0)
         return "/".join(path + [node_key]), net
 
     def _get_nodes_with_var(self, var: tuple, nodes: list) -> list:
